@@ -28,13 +28,14 @@ func init() {
 				"R7: no handler of the pipeline modifies the EDNS data (OPT record, Extra section) of the request message it received (directly or through a callee): the writers read the client's EDNS size, DO bit and options from that very object.",
 			NotCovered: "that dns.Msg.Truncate really fits the size and the encoded sizes themselves; the up-to-36-byte padding " +
 				"overshoot on DoH acknowledged in a code comment (numeric, out of static reach).",
-			Rules: map[string]string{"C08-R12": "the filtered response is written once and for the original request (pipeline table shared with C01-R10)", "C08-R1": "normalise-before-serialise in every wire writer", "C08-R2": "maxDNSSize over all orderings",
+			Rules: map[string]string{"C08-R13": "addEDE builds a fresh response OPT from the request's UDP size and DO bit only", "C08-R12": "the filtered response is written once and for the original request (pipeline table shared with C01-R10)", "C08-R1": "normalise-before-serialise in every wire writer", "C08-R2": "maxDNSSize over all orderings",
 				"C08-R3": "truncate / packWithPrefix gates", "C08-R4": "normalize decision tree and OPT fields",
 				"C08-R5": "padding / keep-alive / option filter gates", "C08-R6": "pooled OPT records are reset before reuse", "C08-R7": "no handler modifies the EDNS data of the request message"},
 		}})
 }
 
 func runC08(c *an.Ctx) {
+	c08AddEDE(c)
 	// ---- R12: the filtered response is written once, for the original request (the writers size and
 	// truncate it by that request's EDNS buffer size and transport)
 	c.Floor("C08-R12", 1)
@@ -562,6 +563,66 @@ func runC08(c *an.Ctx) {
 				return ""
 			}
 			return fmt.Sprintf("keep-alive option set=%v (only when both OPT records exist and the client sent the option)", want)
+		},
+	})
+}
+
+// c08AddEDE holds the table of the server's own error path: the response OPT,
+// when the response has none, is a fresh one that takes only the UDP size and
+// the DO bit from the request (never a copy of the request's OPT, whose options
+// -- padding, cookies, client subnets -- would be echoed on every transport).
+func c08AddEDE(c *an.Ctx) {
+	c.Floor("C08-R13", 1)
+	decide(c, "C08-R13", "dnsserver.addEDE", an.DecideCfg{
+		Dom: an.Domain{"reqopt": an.Bools, "respopt": an.Bools},
+		OnCall: func(it *an.Interp, name string, args []an.AV) (an.AV, bool) {
+			switch {
+			case strings.HasSuffix(name, "dns.Msg).IsEdns0"):
+				feat, tag := "respopt", "respOpt"
+				if args[0].String() == "p0" {
+					feat, tag = "reqopt", "reqOpt"
+				}
+				if it.Feature(feat).IsTrue() {
+					return an.NonNil(tag), true
+				}
+				return an.Nil(), true
+			case strings.HasSuffix(name, "dns.OPT).UDPSize"):
+				return an.Sym("size(" + args[0].String() + ")"), true
+			case strings.HasSuffix(name, "dns.OPT).Do"):
+				return an.Sym("do(" + args[0].String() + ")"), true
+			case strings.HasSuffix(name, "dns.Msg).SetEdns0"):
+				return args[0], true
+			}
+			return an.AV{}, false
+		},
+		Expect: func(f an.Features, o an.AOutcome) string {
+			set := ""
+			for _, e := range o.Effects {
+				if e.Kind != "call" {
+					continue
+				}
+				switch {
+				case strings.HasSuffix(e.Name, "dns.Msg).SetEdns0"):
+					set = strings.Join(e.Args, ",")
+				case strings.HasSuffix(e.Name, "dns.Copy"), strings.HasSuffix(e.Name, ").copy"), strings.HasSuffix(e.Name, "dns.OPT).copy"):
+					return "no copy of a record of the request in the response; got " + e.Name
+				}
+			}
+			switch {
+			case !f.B("reqopt"):
+				if set != "" || len(o.Stores()) > 0 {
+					return "nothing added for a client without EDNS"
+				}
+			case !f.B("respopt"):
+				if set != "p1,size(nonnil:reqOpt),do(nonnil:reqOpt)" {
+					return "a fresh OPT with the request's UDP size and DO bit only; got SetEdns0(" + set + ")"
+				}
+			default:
+				if set != "" {
+					return "the response's own OPT is kept"
+				}
+			}
+			return ""
 		},
 	})
 }
